@@ -389,6 +389,9 @@ def _main(mod, modname, prop, a, seed, pool, t0):
         missing = set(u.required_covers) - agg['covers'].get(ui, set())
         if missing:
             errors.append({'error': f'vacuity guard: unit {u.name} never reached {sorted(missing)} on a feasible path', 'traceback': ''})
+    # a canary (deliberately false claim) must be refuted on at least one path; "proved on every path" means the engine proves falsehoods
+    agg['canary_bad'] = sorted(set(agg['canary_bad']) - set(agg['canary_ok']))
+    agg['canary_ok'] = sorted(set(agg['canary_ok']))
     if agg['canary_bad']:
         errors.append({'error': f'canary guard: deliberately false obligations were "proved": {agg["canary_bad"][:3]}', 'traceback': ''})
     if agg['obligations'] == 0 and not agg['failures']:
